@@ -51,9 +51,12 @@ def downstream_summary(K, repo):
     ce = cq.evaluate(body_stmts(loop_parts(main)[3]))
     st = cq.stores(ce, "idxdown")
     at_i = [e for e in st if cq.same_expr(e.idx, ('sym', iv))]
-    default = [e for e in at_i if e.op == "=" and cq.same_expr(e.val, "-1") and not e.loops and
-               not [c for c in e.conds if not _is_range_guard(c)]]
-    first_is_default = bool(at_i) and bool(default) and at_i[0] is default[0]
+    default = [e for e in at_i if e.op == "=" and cq.same_expr(e.val, "-1") and not e.loops]
+    look_ = [e for e in at_i if e.loops and e.op == "="]
+    key = lambda cs: [(show(c), t) for c, t in cs]
+    # the default is stored on the way to every look-up store: its path conditions are a prefix of theirs and it comes first
+    first_is_default = bool(default) and bool(look_) and all(
+        any(key(d.conds) == key(l.conds)[:len(d.conds)] and st.index(d) < st.index(l) for d in default) for l in look_)
     sink = [e for e in at_i if e.op == "=" and cq.same_expr(e.val, "-2")]
     return {"fn": dn, "main": main, "iv": iv, "ce": ce, "stores": st, "at_i": at_i, "default": default,
             "default_first": first_is_default, "sink": sink}
